@@ -43,6 +43,12 @@ def explore(ctx):
             for seq in itertools.product(outs, repeat=d):
                 for lazy, dials in ((1, "ok"), (1, "fail,ok"), (0, "ok")):
                     lines.append("conn o%d mode=seq lazy=%d dials=%s conns=- script=settle;cmd/1/%s/0/nowait;settle;awaitall;settle" % (k, lazy, dials, ",".join(seq))); k += 1
+        # the built-in connection transports with a dial that takes its time: the command that started the sequence and one
+        # submitted during the dial both return promptly when their contexts end
+        for rep in range({"quick": 2, "thorough": 12, "search": 3}[tier]):
+            for kind in ("tls", "plain"):
+                for how in ("timeout", "cancel"):
+                    lines.append("slowdial w%d kind=%s how=%s" % (k, kind, how)); k += 1
         for fatal_at in ("dials=fatal conns=-", "dials=ok conns=fatal", "dials=fail,fatal conns=-", "dials=ok,ok conns=fail,fatal"):
             lines.append("conn f%d mode=seq lazy=1 %s script=cmd/1/ok/0/nowait;settle;cmd/2/ok/0/nowait;settle;awaitall;settle" % (k, fatal_at)); k += 1
         for nwait in (1, 2, 3):
